@@ -115,7 +115,8 @@ def _mkgit(base, inp):
     os.makedirs(os.path.join(base, "refs", "heads"))
     os.makedirs(os.path.join(base, "refs", "tags"))
     for n, v in inp["loose"]:
-        p = os.path.join(base, NAMES[n].decode())
+        p = os.path.join(base, ALLNAMES[n].decode())
+        os.makedirs(os.path.dirname(p), exist_ok=True)
         with open(p, "wb") as f:
             f.write(_val_bytes(v) + b"\n")
     if inp["packed"]:
@@ -128,7 +129,7 @@ def _mkgit(base, inp):
 def _disk(base):
     """[loose per name, packed per name] read straight from the files"""
     lo = []
-    for nm in NAMES:
+    for nm in ALLNAMES:
         try:
             with open(os.path.join(base, nm.decode()), "rb") as f:
                 lo.append(_val_of_bytes(f.read()))
@@ -144,14 +145,14 @@ def _disk(base):
                 pk[nm] = SHAS.index(s)
     except FileNotFoundError:
         pass
-    return [lo, [pk.get(nm) for nm in NAMES]]
+    return [lo, [pk.get(nm) for nm in ALLNAMES]]
 
 
 def _cache(r):
     m = r._packed_refs
     if m is None:
         return None
-    return [None if m.get(nm) is None else SHAS.index(m[nm]) for nm in NAMES]
+    return [None if m.get(nm) is None else SHAS.index(m[nm]) for nm in ALLNAMES]
 
 
 def _apply(r, o):
@@ -172,7 +173,7 @@ def _apply(r, o):
 
 def _view(disk):
     lo, pk = disk
-    return [lo[i] if lo[i] is not None else pk[i] for i in range(len(NAMES))]
+    return [lo[i] if lo[i] is not None else pk[i] for i in range(len(ALLNAMES))]
 
 
 # --------------------------------------------- cooperative scheduling proxy --
@@ -180,7 +181,7 @@ def _view(disk):
 class _Coop:
     def __init__(self, n):
         self.cv = threading.Condition()
-        self.status = ["new"] * n
+        self.status = ["starting"] * n
         self.grant = [False] * n
 
     def _park(self, tid, status):
@@ -196,7 +197,7 @@ class _Coop:
         self._park(tid, "paused")
 
     def body(self, tid, fn, out):
-        self._park(tid, "new")
+        self._park(tid, "ready")
         try:
             out[tid] = fn()
         except BaseException as e:           # reported by the driver
@@ -209,7 +210,7 @@ class _Coop:
     def turn(self, tid):
         """let updater tid perform one step; False when it had already finished"""
         with self.cv:
-            while self.status[tid] == "running":      # thread start-up
+            while self.status[tid] == "starting":     # thread start-up
                 self.cv.wait(10)
             if self.status[tid] == "done":
                 return False
@@ -381,7 +382,7 @@ def _spec(o, view):
 def _init_view(inp):
     lo = dict((n, _pyval(v)) for n, v in inp["loose"])
     pk = dict(inp["packed"])
-    return [lo.get(i, pk.get(i)) for i in range(len(NAMES))]
+    return [lo.get(i, pk.get(i)) for i in range(len(ALLNAMES))]
 
 
 def _seq_failures(inp, obs):
@@ -455,12 +456,12 @@ def _cold_remove_seq(inp, obs):
 
 def _loose0(inp):
     lo = dict((n, _pyval(v)) for n, v in inp["loose"])
-    return [lo.get(i) for i in range(len(NAMES))]
+    return [lo.get(i) for i in range(len(ALLNAMES))]
 
 
 def _packed0(inp):
     pk = dict(inp["packed"])
-    return [pk.get(i) for i in range(len(NAMES))]
+    return [pk.get(i) for i in range(len(ALLNAMES))]
 
 
 def _cold_remove_conc(inp, obs):
